@@ -719,13 +719,15 @@ func astFromValue(value interface{}, ttype Type) ast.Value {
 	}
 	valueVal := reflect.ValueOf(value)
 	if valueVal.Type().Kind() == reflect.Ptr {
+		// a default given through a pointer stands for the value it points to
 		valueVal = valueVal.Elem()
+		value = valueVal.Interface()
 	}
 
 	// Convert Golang slice to GraphQL list. If the Type is a list, but
 	// the value is not an array, convert the value using the list's item type.
 	if ttype, ok := ttype.(*List); ok {
-		if valueVal.Type().Kind() == reflect.Slice {
+		if kind := valueVal.Type().Kind(); kind == reflect.Slice || kind == reflect.Array {
 			itemType := ttype.OfType
 			values := []ast.Value{}
 			for i := 0; i < valueVal.Len(); i++ {
